@@ -205,6 +205,9 @@ func schemaSexp(s *schemaDef) sexp.Node {
 		ts = append(ts, sexp.L(sexp.Str(t.name), d))
 	}
 	ins, ads := inputsSexp(s)
+	if s.poolArgs != nil {
+		return sexp.T("schema", sexp.L(ts...), sexp.Str(s.query), opt(s.mutation), sexp.None(), ins, ads, dtTableSexp())
+	}
 	return sexp.T("schema", sexp.L(ts...), sexp.Str(s.query), opt(s.mutation), sexp.None(), ins, ads)
 }
 
